@@ -125,7 +125,8 @@ func checkC04(c *Ctx) error {
 			if cs == nil {
 				continue
 			}
-			d := verifhook.BuildLALR(hookSpec(cs.C))
+			var d *verifhook.ParserDump
+			c.Guard("lr1.ConstructLALR on the grammar in g.lox", map[string]string{"g.lox": loxOf(cs.G)}, func() { d = verifhook.BuildLALR(hookSpec(cs.C)) })
 			c.Ev.Eval(1)
 			c04Judge(c, cs, d.HasConflicts, d, "P0(lr1.ConstructLALR)", &mu, seen)
 		}
@@ -156,7 +157,7 @@ func checkC04(c *Ctx) error {
 						diag.WriteString(fmt.Sprintf("panic: %v", rec))
 					}
 				}()
-				fe = verifhook.ParseLox(dir, &diag, nil)
+				c.Guard("ParseLox on g.lox", map[string]string{"g.lox": lox}, func() { fe = verifhook.ParseLox(dir, &diag, nil) })
 			}()
 			c.Ev.Eval(1)
 			if fe == nil || fe.Parser == nil {
@@ -284,3 +285,8 @@ func c04Judge(c *Ctx, cs *c04Case, gotConf bool, d *verifhook.ParserDump, path s
 }
 
 var _ = rng.New
+
+func loxOf(g *gram.Grammar) string {
+	t, _ := g.Lox()
+	return t
+}
